@@ -1,9 +1,7 @@
 package c06
 
 import (
-	"encoding/json"
 	"errors"
-	"math"
 	"time"
 
 	"verifsim/simredis"
@@ -19,14 +17,8 @@ const (
 	breakerWindow = 15 * time.Second // go-zero's redis breaker forgets failures after 10 s
 )
 
-func ceilSec(d time.Duration) time.Duration {
-	return time.Duration(math.Ceil(d.Seconds())) * time.Second
-}
-
-func (w *world) maxTTL(base time.Duration) time.Duration {
-	return ceilSec(time.Duration(1.05 * float64(base)))
-}
-func (w *world) minTTL(base time.Duration) time.Duration { return time.Duration(0.95 * float64(base)) }
+func (w *world) maxTTL(base time.Duration) time.Duration { return ceilSec(jitMax(base)) }
+func (w *world) minTTL(base time.Duration) time.Duration { return jitMin(base) }
 
 const placeholder = "*"
 
@@ -131,6 +123,33 @@ func (w *world) checkRead(st *step) {
 	cur := w.curRow(ent)
 	if len(st.readers) > 1 {
 		w.r.Probe("concurrent-read-group")
+		nIdx, nPri, joined := 0, 0, false
+		for _, c := range st.readers {
+			switch c.kind {
+			case rIndex:
+				nIdx++
+			case rPrimary, rTake:
+				nPri++
+			}
+			// a follower: invoked while another caller's index query was running
+			for _, x := range st.execs {
+				if x.kind == qIndex && x.caller != c && c.kind == rIndex && x.s < c.inv && c.inv < x.e {
+					joined = true
+				}
+			}
+		}
+		if nIdx > 1 && st.pre[1].missFrom(ginv) {
+			w.r.Probe("index-group-on-uncached-index-key")
+			if joined {
+				w.r.Probe("index-group-follower-joined-during-index-query")
+			}
+			if c := pkClass(ent.pk); c != "small" {
+				w.r.Probe("index-group-with-pk-" + c)
+			}
+		}
+		if nIdx > 0 && nPri > 0 && st.pre[0].missFrom(ginv) {
+			w.r.Probe("mixed-group-primary-and-index-on-uncached-row")
+		}
 	}
 	for _, c := range st.readers {
 		// a context error is on the account of a context that ended while the call (or a call that
@@ -150,10 +169,10 @@ func (w *world) checkRead(st *step) {
 		switch c.out {
 		case oRow:
 			switch {
-			case c.got == cur && ent.ver != 0:
+			case ent.ver != 0 && sameRow(c.got, cur):
 			case ent.ver == 0 && !stale:
 				w.fail("read-mismatch:row-for-absent", "call %d (%s) returned row %+v, the database holds no such row", c.id, w.rn(c), c.got)
-			case c.got.ID == ent.id && c.got.Name == ent.name && c.got.Ver != 0 && inHist(ent, c.got.Ver):
+			case c.got.Ver != 0 && inHist(ent, c.got.Ver) && sameRow(c.got, w.rowAt(ent, c.got.Ver)):
 				if !stale {
 					w.fail("read-mismatch:stale-row", "call %d (%s) returned version %d, the database holds version %d", c.id, w.rn(c), c.got.Ver, ent.ver)
 				} else {
@@ -177,7 +196,7 @@ func (w *world) checkRead(st *step) {
 				w.fail("read-mismatch:notfound-for-present", "call %d (%s) returned the not-found error, the database holds %+v", c.id, w.rn(c), cur)
 			}
 		case oDBErr:
-			x := w.injected(c.err)
+			x := c.dbx
 			if c.kind == rGet || x.ent != ent || !overlapsExec(c, x) {
 				w.fail("db-error-unattributable", "call %d (%s) [%d,%d] returned %q of query %d run by call %d [%d,%d] which did not overlap it", c.id, w.rn(c), c.inv, c.ret, c.err, x.id, x.caller.id, x.caller.inv, x.caller.ret)
 			} else if x.caller != c {
@@ -412,7 +431,7 @@ func (w *world) checkWrite(st *step) {
 			switch {
 			case ent.ver == 0 && !errors.Is(st.err, w.errNF):
 				w.fail("no-cache-pass-through", "FindOneNoCache returned (%+v, %v), the collection holds no such document", st.monV, st.err)
-			case ent.ver != 0 && (st.err != nil || st.monV != w.curRow(ent)):
+			case ent.ver != 0 && (st.err != nil || !sameRow(st.monV, w.curRow(ent))):
 				w.fail("no-cache-pass-through", "FindOneNoCache returned (%+v, %v), the collection holds %+v", st.monV, st.err, w.curRow(ent))
 			}
 		} else {
@@ -629,7 +648,7 @@ func (w *world) monUpsertFinding(st *step, k string, clean bool) {
 
 func parseRow(val string) (row, bool) {
 	var v row
-	if err := json.Unmarshal([]byte(val), &v); err != nil {
+	if err := decodeNumbers(val, &v); err != nil {
 		return v, false
 	}
 	return v, true
@@ -638,6 +657,18 @@ func parseRow(val string) (row, bool) {
 // invariants are checked between operations: (6) every key has a finite TTL within the
 // configured expiry, and what the store holds is what the database holds.
 func (w *world) invariants() {
+	// the store holds nothing but the keys of the rows: an entry under any other key is served to
+	// nobody who asks for a row by its keys and is invalidated by no write
+	for _, n := range w.nodes {
+		n.srv.Sync()
+		for _, k := range n.srv.MR().Keys() {
+			if w.byKey[k] == nil {
+				val, _ := n.srv.MR().Get(k)
+				w.fail("stray-key", "node %d holds the key %s (value %s, TTL %v) which is the primary or index key of no row", n.idx, short(k), short(val), n.srv.MR().TTL(k))
+			}
+		}
+		w.r.Probe("store-scanned-for-stray-keys")
+	}
 	for _, ent := range w.ents {
 		for i, k := range ent.keys() {
 			s := w.snapKey(k)
@@ -685,10 +716,10 @@ func (w *world) invariants() {
 				ok = ent.ver == 0
 			case i == 0:
 				v, parsed := parseRow(s.val)
-				ok = parsed && ent.ver != 0 && v == w.curRow(ent)
+				ok = parsed && ent.ver != 0 && sameRow(v, w.curRow(ent))
 			default:
-				var id int64
-				ok = json.Unmarshal([]byte(s.val), &id) == nil && id == ent.id && ent.ver != 0
+				var id any
+				ok = decodeNumbers(s.val, &id) == nil && samePK(id, ent.pk) && ent.ver != 0
 			}
 			if !ok {
 				w.fail("stale-entry-in-store:"+kind, "key %s holds %q but the database holds %+v (version 0 = no row)", k, s.val, w.curRow(ent))
@@ -737,7 +768,7 @@ func (w *world) checkDue(ent *entity, due time.Time) {
 			stale = ent.ver != 0
 		case i == 0:
 			v, ok := parseRow(s.val)
-			stale = !ok || v != w.curRow(ent)
+			stale = !ok || !sameRow(v, w.curRow(ent))
 		default:
 			stale = ent.ver == 0
 		}
